@@ -318,6 +318,8 @@ where
                 .into_dimensionality::<D::Smaller>()
                 .unwrap_or_else(|_| unreachable!());
 
+            #[cfg(ndarray_interp_verif)]
+            crate::verif_hooks::sched_point("batch:elem");
             self.strategy.interp_into(self, subview, x)?;
         }
         Ok(())
@@ -334,6 +336,8 @@ where
         Zip::from(xs)
             .and(buffer.axis_iter_mut(Axis(0)))
             .fold_while(Ok(()), |_, &x, buf| {
+                #[cfg(ndarray_interp_verif)]
+                crate::verif_hooks::sched_point("batch:elem");
                 match self.strategy.interp_into(self, buf, x) {
                     Ok(_) => ndarray::FoldWhile::Continue(Ok(())),
                     Err(e) => ndarray::FoldWhile::Done(Err(e)),
